@@ -244,8 +244,10 @@ impl<'a> Writer<'a> {
         let days = local.div_euclid(86400);
         let sod = local.rem_euclid(86400);
         let (y, m, dd) = civil_from_days(days);
-        self.out.push_str(&format!("{:04}-{:02}-{:02}T{:02}:{:02}:{:02}", y, m, dd, sod / 3600, (sod / 60) % 60, sod % 60));
-        self.frac(d.nanos);
+        // a leap second is held as second 59 with a nanosecond field of 1e9 or more, and written as second 60
+        let (leap, nanos) = if d.nanos >= 1_000_000_000 { (1, d.nanos - 1_000_000_000) } else { (0, d.nanos) };
+        self.out.push_str(&format!("{:04}-{:02}-{:02}T{:02}:{:02}:{:02}", y, m, dd, sod / 3600, (sod / 60) % 60, sod % 60 + leap));
+        self.frac(nanos);
         if d.tz == "UTC" {
             self.out.push('Z');
             if self.flip(1, 2, "z-utc") {
@@ -364,8 +366,9 @@ impl<'a> Writer<'a> {
             }
             MVal::Date(y, m, d) => self.out.push_str(&format!("{:04}-{:02}-{:02}", y, m, d)),
             MVal::Time(h, m, s, n) => {
-                self.out.push_str(&format!("{:02}:{:02}:{:02}", h, m, s));
-                self.frac(*n);
+                let (leap, nanos) = if *n >= 1_000_000_000 { (1, *n - 1_000_000_000) } else { (0, *n) };
+                self.out.push_str(&format!("{:02}:{:02}:{:02}", h, m, s + leap));
+                self.frac(nanos);
             }
             MVal::DateTime(d) => self.datetime(d),
             MVal::Coord(a, b) => {
@@ -711,8 +714,12 @@ impl<'a> Reader<'a> {
         self.eat(b':')?;
         let s = self.digits(2)?;
         let n = self.frac_nanos()?;
-        if h > 23 || mi > 59 || s > 59 {
+        if h > 23 || mi > 59 || s > 60 {
             return self.err("invalid time");
+        }
+        // second 60 = leap second: second 59 with the nanosecond field raised by 1e9
+        if s == 60 {
+            return Ok((h, mi, 59, n + 1_000_000_000));
         }
         Ok((h, mi, s, n))
     }
